@@ -368,10 +368,13 @@ class Analysis:
             outs = nxt
         return outs
 
-    def run(self, entry_states, follow_exc=False, limit=400000):
+    def run(self, entry_states, follow_exc=False, limit=400000, start=None, stop=()):
+        """start: node ids to start from (default: the entry); stop: node ids at which exploration ends -- the states arriving there
+        are recorded (Result.at) but not expanded (used to analyse one iteration of a loop)"""
         g = self.g
         seen = {}
-        work = [(g.entry, s, None) for s in entry_states]
+        stop = set(stop)
+        work = [(n0, s, None) for s in entry_states for n0 in ([g.entry] if start is None else list(start))]
         count = 0
         while work:
             nid, st, parent = work.pop()
@@ -386,6 +389,8 @@ class Analysis:
                 raise AnalysisError(f'state explosion in {g.top.qual} (> {limit} states)')
             n = g.nodes[nid]
             me = (nid, k)
+            if nid in stop and parent is not None:
+                continue
             for out in self.transfer_multi(n, st):
                 for (label, m) in g.succ[nid]:
                     if label == 'exc' and not follow_exc:
